@@ -68,6 +68,8 @@ def analyse_grow(expr: ast.AST, arr: str, scope_funcs: Dict[str, ast.FunctionDef
         old_first = canon(first) == arr
         if not old_first and canon(fresh) == arr:
             first, fresh = fresh, first
+        if isinstance(fresh, ast.Name) and fresh.id in closure:
+            fresh = closure[fresh.id]  # the block of empty rows built once in a local
         fd = literal_shape_first_dim(fresh) if isinstance(fresh, ast.Call) else None
         ax = kw(expr, "axis")
         return {"idiom": "append", "old_first": old_first, "fill": fill_of_fresh(fresh), "amount": canon(fd) if fd is not None else None,
@@ -76,6 +78,8 @@ def analyse_grow(expr: ast.AST, arr: str, scope_funcs: Dict[str, ast.FunctionDef
         a, b = expr.args[0].elts
         old_first = canon(a) == arr
         fresh = b if old_first else a
+        if isinstance(fresh, ast.Name) and fresh.id in closure:
+            fresh = closure[fresh.id]  # the block of empty rows built once in a local
         fd = literal_shape_first_dim(fresh) if isinstance(fresh, ast.Call) else None
         ax = kw(expr, "axis")
         return {"idiom": n, "old_first": old_first, "fill": fill_of_fresh(fresh), "amount": canon(fd) if fd is not None else None,
